@@ -14,7 +14,7 @@ func init() {
 		explain: "R-1: every function that starts the lexer goroutine's owner registers, immediately after, a deferred call that drains the token channel, and the goroutine closes that channel on every non-panicking exit (no leaked goroutine). " +
 			"R-2: every index and one-bound slice expression on the scanned buffer in the functions reachable from the lexer goroutine entry (which runs with no recover, so a fault kills the process) is in range on every path, by a linear guard fact, by a precondition discharged at every call site, or by a nil-return postcondition of the callee. " +
 			"R-3: the disassembler's name tables are total over the opcode and condition enums and are indexed with non-negative values.",
-		notCov: []string{"internal panics of parser/checker/emitter on the calling goroutine (no catch-all exists in Build*; declared 'not implemented' gaps are listed in DESIGN.md §7, not decided here)", "termination of lexer and parser loops", "slices with two symbolic bounds (listed in notes)", "index faults outside the lexer (parser/checker/emitter run on the caller's goroutine)"},
+		notCov:  []string{"internal panics of parser/checker/emitter on the calling goroutine (no catch-all exists in Build*; declared 'not implemented' gaps are listed in DESIGN.md §7, not decided here)", "termination of lexer and parser loops", "slices with two symbolic bounds (listed in notes)", "index faults outside the lexer (parser/checker/emitter run on the caller's goroutine)"},
 		trusted: []string{"bytes.Index*/HasPrefix and utf8.DecodeRune result contracts", "the reviewed exception table c04Exceptions (one symbol, one reason each)"},
 		run:     runC04,
 	})
